@@ -141,3 +141,9 @@ _push('C18', 'Lean 4 proof (invariant: no driver function turns a failed operati
       'Theorems C18_fault_is_error / C18_success_means_no_fault / C18_recorded_last for all workspaces, configurations and fault positions k. '
       'Real runs: the k-th write operation (modified file, reject, backup, applied-patches, directory) is failed by the hook for every k; exit must '
       'be 1, no panic, applied-patches untouched, the message must name the file.', ' Faults are injected at operation granularity.')
+
+_push('C06', 'Lean 4 proof (all-schedules invariant of the apply-phase transition system; disjoint name sets => file patches of different workers commute on the abstract tree) + forced-schedule correspondence via the baton hook',
+      'Theorems C06_apply_phase (every schedule), C06_queues_sorted, C06_disjoint, C06_frame, C06_local, C06_commute. The real parallel driver is run '
+      'under forced random schedules (scheduling points around the shared atomic and before every file-system write) and with free-running '
+      'threads for 2-16 workers; tree, .pc, rejects and exit status must equal the single-threaded specification.',
+      ' Partial: the save phase (writes of different workers to distinct paths are independent of the interleaving) is covered by the forced-schedule runs only, not by a theorem; memory-model effects below SC atomics and rayon itself are outside the model.')
